@@ -1,4 +1,5 @@
 CONSTANTS
+  Sites <- SiteTable
   BITS = 6
   ERAS = 3
 SPECIFICATION Spec
